@@ -27,9 +27,15 @@ def candidates():
     for tc, tn in REPS:
         for e in range(-60, 61, 2):
             out["sqrt<scaled<%s,%d>>" % (tn, e)] = ("sqrt", "c19::sqrt_scaled<%s,%d>" % (tc, e))
+    # other radixes (the unit of the root is Radix^(E/2))
+    for i, (tc, tn) in enumerate(REPS):
+        for r, es in ((10, (-8, -6, -4, -2, 2, 4)), (3, (-2, 2)), (16, (-2, 4)), (8, (-2,))):
+            for e in es:
+                if r == 10 or (i + e) % 2 == 0:
+                    out["sqrt<scaled<%s,%d,r%d>>" % (tn, e, r)] = ("sqrt", "c19::sqrt_scaled<%s,%d,%d>" % (tc, e, r))
     # exp2: reps up to 32 bits, every exponent that leaves at least one integer bit
     for tc, tn, dig in [("signed char", "i8", 7), ("unsigned char", "u8", 8), ("short", "i16", 15), ("unsigned short", "u16", 16), ("int", "i32", 31), ("unsigned", "u32", 32)]:
-        for e in range(-(dig - 1), 1):
+        for e in list(range(-(dig - 1), 1)) + [1, 2, 3]:   # (positive exponents: x is a multiple of 2^e)
             out["exp2<scaled<%s,%d>>" % (tn, e)] = ("exp2", "c19::exp2_log<%s,%d>" % (tc, e))
     need = {"e": 2, "log2e": 1, "log10e": 0, "pi": 2, "inv_pi": 0, "inv_sqrtpi": 0, "ln2": 0, "ln10": 2, "sqrt2": 1, "sqrt3": 1, "inv_sqrt3": 0, "egamma": 0, "phi": 1}
     for tc, tn, dig in [("signed char", "i8", 7), ("unsigned char", "u8", 8), ("short", "i16", 15), ("unsigned short", "u16", 16), ("int", "i32", 31), ("unsigned", "u32", 32), ("long", "i64", 63), ("unsigned long", "u64", 64)]:
@@ -56,6 +62,8 @@ def run(tier, seed, only=None):
     res = core.Result("C19", tier, seed)
     ks = [k for k in load()["kernels"] if k["desc"].startswith("sqrt<") and "scaled" not in k["desc"]]  # every built-in and elastic kernel, always
     ks += select("sqrt", tier, seed, 40, 150)
+    rk = [k for k in load()["kernels"] if k["kind"] == "sqrt" and ",r" in k["desc"]]
+    ks += rk if tier == "thorough" else rk[seed % 2::2]   # other radixes: half of them per seed in quick
     seen = set()
     ks = [k for k in ks if not (k["desc"] in seen or seen.add(k["desc"]))]
     if only:
